@@ -84,6 +84,10 @@ def parseCOps (s : String) : Option (List Op) :=
     | ["sc", i] => i.toInt?.map fun i => .seek (.current i)
     | ["p", n] => n.toNat?.map .setPos
     | ["f"] => some .flush
+    | ["ra"] => some .readToEnd
+    | ["rx", n] => n.toNat?.map .readExact
+    | ["wa", h] => some (.writeAll (unhex h.toList))
+    | ["wa"] => some (.writeAll [])
     | _ => none
 
 open Eps.Cur in
@@ -93,6 +97,7 @@ def showOut : Out → String
   | .pos n => "p" ++ toString n
   | .unit => "u"
   | .invalidInput => "einv"
+  | .eof => "eUnexpectedEof"
   | .panic => "panic"
 
 /-- outputs up to and including the first panic -/
@@ -249,6 +254,15 @@ def step (st : St) (line : String) : St × Option String :=
         (st, some ("xdeser | F " ++ showRes (fun (x : Val × Nat) => showVal x.1 ++ " " ++ toString x.2) (u.deFull H s) ++
                    " | E " ++ showRes (fun (x : EVal × Nat) => showEVal x.1 ++ " " ++ toString x.2) (u.deEps H 0 s)))
       | _, _, _ => (st, some "badval")
+  | ["xdeserm", i, j, minor, val] =>
+      match i.toNat?.bind (st.types[·]?), j.toNat?.bind (st.types[·]?), minor.toNat?, parseVal val with
+      | some t, some u, some m, some v =>
+        if !t.wt v then (st, some "illtyped") else
+        let s0 := t.ser H (st.names.getD i.toNat! []) v
+        let s := if s0.length ≥ 12 then s0.take 10 ++ leBytes 2 m ++ s0.drop 12 else s0
+        (st, some ("xdeser | F " ++ showRes (fun (x : Val × Nat) => showVal x.1 ++ " " ++ toString x.2) (u.deFull H s) ++
+                   " | E " ++ showRes (fun (x : EVal × Nat) => showEVal x.1 ++ " " ++ toString x.2) (u.deEps H 0 s)))
+      | _, _, _, _ => (st, some "badval")
   | ["fromhex", i, r, h] =>
       match i.toNat?.bind (st.types[·]?), r.toNat? with
       | some t, some r =>
@@ -287,6 +301,7 @@ def step (st : St) (line : String) : St × Option String :=
         (st, some ("leak first=" ++ status ++ " oks=" ++ toString (if status == "ok" then n else 0) ++
                    " panics=" ++ toString (if status == "panic" then n else 0) ++ " heap=0 maps=0"))
       | _, _ => (st, some "badval")
+  | ["dropcheck", _, _] => (st, some "dropcheck ok")     -- the region outlives the structure (Resources.loadTrace: release after the last use)
   | ["fload", i, loader, h] =>
       match i.toNat?.bind (st.types[·]?) with
       | some t =>
